@@ -165,6 +165,9 @@ class DiffXReader(object):
             options = section['options']
             section_id = section['section']
 
+            if 'encoding' in options:
+                self._validate_encoding(options['encoding'], linenum)
+
             if section_id in CONTENT_SECTIONS:
                 # This is a content section.
                 encoding = options.get('encoding', encodings[-1])
@@ -280,6 +283,30 @@ class DiffXReader(object):
 
             # Pass that section up to the caller for processing.
             yield section
+
+    def _validate_encoding(self, encoding, linenum):
+        """Validate that an encoding option names a usable text encoding.
+
+        Args:
+            encoding (object):
+                The value of the ``encoding`` option.
+
+            linenum (int):
+                The line number of the section header.
+
+        Raises:
+            pydiffx.errors.DiffXParseError:
+                The encoding is unknown or is not a text encoding.
+        """
+        try:
+            if not isinstance(encoding, str):
+                raise LookupError('unknown encoding: %s' % encoding)
+
+            'x'.encode(encoding)
+        except (LookupError, UnicodeError) as e:
+            raise DiffXParseError(
+                'Unsupported value "%s" for encoding: %s' % (encoding, e),
+                linenum=linenum)
 
     def _read_header(self, valid_sections={}):
         """Read a header at the current offset within the stream.
@@ -523,8 +550,14 @@ class DiffXReader(object):
         if encoding and not keep_bytes:
             # We know what this content was encoded with. We can now decode
             # it.
-            content = content.decode(encoding)
-            newline = newline.decode(encoding)
+            try:
+                content = content.decode(encoding)
+                newline = newline.decode(encoding)
+            except UnicodeError as e:
+                raise DiffXParseError(
+                    'Unable to decode the content as "%s": %s'
+                    % (encoding, e),
+                    linenum=self._linenum)
 
         # Validate that the content ends in a newline. This is to ensure that
         # the file was written according to spec.
